@@ -89,8 +89,12 @@ def run_all(ctx, specs, labels, inert_pairs=True):
                 if op.get('cb') and inert_pairs:
                     s2 = dict(spec, ops=[dict(o, cb=None) for o in spec['ops']])
                     rr2 = scen.run(s2, mode)
-                    tx1 = [e['_raw'] for e in rr.events if e['ev'] == 'tx']
-                    tx2 = [e['_raw'] for e in rr2.events if e['ev'] == 'tx']
+                    def own_frames(r_):
+                        # the frames of the push's own stream (a callback may legitimately run other operations on other streams)
+                        lid_ = next((e['a0'] for e in r_.events if e['ev'] == 'tx' and e['cmd'] == 'OPEN' and e['_raw'][24:] == b'sync:\0'), None)
+                        return [e['_raw'] for e in r_.events if e['ev'] == 'tx' and (e['a0'] == lid_ or not str(op.get('cb')).startswith('reenter'))]
+                    tx1 = own_frames(rr)
+                    tx2 = own_frames(rr2)
                     same_out = [o.key()[0] for o in rr.outcomes] == [o.key()[0] for o in rr2.outcomes]
                     inert[i] = (tx1 == tx2 and same_out)
             for (i, t) in scen.sync_traces(rr, spec, inert=inert, only=('push',)):
@@ -172,6 +176,13 @@ def body(ctx):
             specs.append(dict(seed=ctx.seed + 100 + k, maxdata=rng.choice([4096, 262144]), rid='random', frag='whole',
                               ops=[dict(api='push', size=n, src='fifo', path='/sdcard/pipe%d' % k, mtime=5, cb=cb)]))
             labels.append('source=named pipe cb=%s' % cb)
+    # a callback that runs another operation on the same device (a shell command, a stat, a pull) from inside the push
+    for cb in ('reenter', 'reenter_stat', 'reenter_pull'):
+        for n in (1, 5000, 200000):
+            k += 1
+            specs.append(dict(seed=ctx.seed + 100 + k, maxdata=rng.choice([4096, 262144]), rid='random', frag='whole',
+                              ops=[dict(api='push', size=n, src='bytesio', path='/sdcard/re%d' % k, mtime=5, cb=cb), dict(api='shell', decode=False, cmd='after', chunks=[b'ok'.hex()])]))
+            labels.append('callback=%s' % cb)
     for cwd in ('inside', 'elsewhere'):
         for files in ([('a.txt', 10)], [('a.txt', 0), ('b.bin', 5000), ('c', 70000)], []):
             k += 1
